@@ -746,6 +746,12 @@ def sym_sqrt(x):
         n, d = _m.isqrt(fr.numerator), _m.isqrt(fr.denominator)
         if n * n == fr.numerator and d * d == fr.denominator:
             return SymReal(qval(Fraction(n, d)))
+    root = _exact_sqrt_mod_trig(se)
+    if root is not None:
+        EX.nonlinear = True
+        r = z3.If(root >= 0, root, -root)
+        EX.sqrtcache[k] = r
+        return SymReal(r)
     if not syntactic_nonneg(x.e) and EX.branch(x.e < 0):
         raise ValueError("math domain error")
     y = z3.Real(EX.fresh_name("sqrt"))
@@ -753,6 +759,104 @@ def sym_sqrt(x):
     EX.add(y >= 0, y * y == x.e)
     EX.sqrtcache[k] = y
     return SymReal(y)
+
+
+def _z3_to_sympy(e, syms):
+    import sympy
+    if z3.is_rational_value(e):
+        return sympy.Rational(e.numerator_as_long(), e.denominator_as_long())
+    if z3.is_int_value(e):
+        return sympy.Integer(e.as_long())
+    if z3.is_const(e) and e.decl().kind() == z3.Z3_OP_UNINTERPRETED:
+        name = e.decl().name()
+        if name not in syms:
+            syms[name] = (sympy.Symbol("v%d" % len(syms), real=True), e)
+        return syms[name][0]
+    k = e.decl().kind()
+    ch = e.children()
+    if k == z3.Z3_OP_ADD:
+        return sum((_z3_to_sympy(c, syms) for c in ch), sympy.Integer(0))
+    if k == z3.Z3_OP_MUL:
+        r = sympy.Integer(1)
+        for c in ch:
+            r = r * _z3_to_sympy(c, syms)
+        return r
+    if k == z3.Z3_OP_SUB:
+        r = _z3_to_sympy(ch[0], syms)
+        for c in ch[1:]:
+            r = r - _z3_to_sympy(c, syms)
+        return r
+    if k == z3.Z3_OP_UMINUS:
+        return -_z3_to_sympy(ch[0], syms)
+    if k == z3.Z3_OP_POWER and z3.is_rational_value(ch[1]) and ch[1].denominator_as_long() == 1 and 0 <= ch[1].numerator_as_long() <= 8:
+        return _z3_to_sympy(ch[0], syms) ** ch[1].numerator_as_long()
+    if k == z3.Z3_OP_DIV and z3.is_rational_value(ch[1]):
+        return _z3_to_sympy(ch[0], syms) / _z3_to_sympy(ch[1], syms)
+    raise ValueError("not a polynomial term")
+
+
+def _sympy_to_z3(p, syms_by_symbol):
+    import sympy
+    if p.is_Rational:
+        return qval(Fraction(int(p.p), int(p.q)))
+    if p.is_Symbol:
+        return syms_by_symbol[p]
+    if p.is_Add:
+        r = None
+        for a in p.args:
+            t = _sympy_to_z3(a, syms_by_symbol)
+            r = t if r is None else r + t
+        return r
+    if p.is_Mul:
+        r = None
+        for a in p.args:
+            t = _sympy_to_z3(a, syms_by_symbol)
+            r = t if r is None else r * t
+        return r
+    if p.is_Pow and p.exp.is_Integer and p.exp > 0:
+        b = _sympy_to_z3(p.base, syms_by_symbol)
+        r = b
+        for _ in range(int(p.exp) - 1):
+            r = r * b
+        return r
+    raise ValueError("cannot convert %r" % (p,))
+
+
+def _exact_sqrt_mod_trig(e):
+    """if e is, modulo the identities c_i^2 + s_i^2 = 1 of the angle tokens on this path, the square of a
+    polynomial p, return p (a z3 term); else None.  Sound: the identities are constraints of the path."""
+    if not EX.angle_atoms or _is_const(e):
+        return None
+    try:
+        import sympy
+        syms = {}
+        expr = sympy.expand(_z3_to_sympy(z3.simplify(e, som=True), syms))
+        if len(syms) > 12:
+            return None
+        ideal = []
+        gens = []
+        for (c, s) in list(EX.angle_atoms.values()) + list(EX.subatoms.values()):
+            if z3.is_const(c) and z3.is_const(s) and c.decl().name() in syms and s.decl().name() in syms:
+                cs, ss = syms[c.decl().name()][0], syms[s.decl().name()][0]
+                ideal.append(cs ** 2 + ss ** 2 - 1)
+                gens += [ss, cs]
+        if not ideal:
+            return None
+        others = [v[0] for v in syms.values() if v[0] not in gens]
+        _, rem = sympy.reduced(expr, ideal, *(gens + others))
+        coeff, factors = sympy.factor_list(rem)
+        if coeff < 0 or any(m % 2 for _, m in factors):
+            return None
+        cr = sympy.sqrt(coeff)
+        if not cr.is_Rational:
+            return None
+        root = cr
+        for b, m in factors:
+            root = root * b ** (m // 2)
+        by_symbol = {v[0]: v[1] for v in syms.values()}
+        return _sympy_to_z3(sympy.expand(root), by_symbol)
+    except Exception:
+        return None
 
 
 def sym_hypot(x, y):
@@ -867,6 +971,9 @@ def angle_token(e):
         tok = _cmul(tok, t)
     if const != 0:
         quarter = const / (TAUQ / 4)
+        if quarter.denominator != 1 and abs(quarter - round(quarter)) < Fraction(1, 10 ** 12):
+            # a float sum such as tau/4 + tau/4 + tau/4: one rounding away from the exact multiple
+            quarter = Fraction(round(quarter))
         if quarter.denominator == 1:
             n = quarter.numerator % 4
             for _ in range(n):
@@ -892,17 +999,31 @@ def _as_symreal(x):
     return None
 
 
+def _quarter_snap(x):
+    """in the symbolic run a concrete angle within 1e-12 of a multiple of tau/4 is that multiple (exact reals):
+    (cos, sin) in {(1,0),(0,1),(-1,0),(0,-1)}; otherwise None"""
+    if EX is None:
+        return None
+    q = x / (TAU / 4.0)
+    k = round(q)
+    if abs(q - k) < 1e-12:
+        return [(1, 0), (0, 1), (-1, 0), (0, -1)][k % 4]
+    return None
+
+
 def sym_cos(x):
     sx = _as_symreal(x)
     if sx is None:
-        return math.cos(x)
+        sn = _quarter_snap(x)
+        return _float(sn[0]) if sn else math.cos(x)
     return SymReal(angle_token(sx.e)[0])
 
 
 def sym_sin(x):
     sx = _as_symreal(x)
     if sx is None:
-        return math.sin(x)
+        sn = _quarter_snap(x)
+        return _float(sn[1]) if sn else math.sin(x)
     return SymReal(angle_token(sx.e)[1])
 
 
